@@ -28,7 +28,7 @@ Theorem roundtrip_har L se flows : contracts L -> Forall (flow_okF L se) flows -
   exists es imported,
     make_har L flows = Ok es
     /\ import_har se L es = (imported, Clean)
-    /\ Forall2 (fun x i => same_exchange (fst x) (snd x) i) (exchanges flows) imported.
+    /\ Forall2 (fun x i => same_exchange L (fst x) (snd x) i) (exchanges flows) imported.
 Proof.
   intros (C1 & C2 & C3). induction 1 as [|f flows Hf _ IH].
   - exists [], []. repeat split. constructor.
@@ -62,7 +62,10 @@ Definition toy : lib :=
         latin
         (fun s => Ok (VB (unlatin s)))
         (fun u => Ok ([x61], u))
-        (fun ct => ct).
+        (fun ct => ct)
+        (fun a => a)
+        (fun hh => (hh, None))
+        (fun scheme host port path => latin (scheme ++ [x3a;x2f;x2f] ++ host ++ path)).
 
 Lemma toy_contracts : contracts toy.
 Proof.
@@ -75,7 +78,7 @@ Qed.
 (* POST /p with a JSON-ish body, answered 200 with a text body; several headers each *)
 Definition H (k v : bytes) : field := (k, v).
 Definition sample_rq (ver : bytes) : request :=
-  mkRequest [x50;x4f;x53;x54] [104;116;116;112;58;47;47;97;47;112]%N ver
+  mkRequest [x50;x4f;x53;x54] S_HTTP [x61] 80 [x2f;x70] [] ver
             [H [x48;x6f;x73;x74] [x61]; H [x43;x6f;x6e;x74;x65;x6e;x74;x2d;x4c;x65;x6e;x67;x74;x68] [x39];
              H [x41;x63;x63;x65;x70;x74] [x2a;x2f;x2a]]
             (Some [x7b;x7d]).
@@ -145,7 +148,7 @@ Lemma header_fix_effective :
 Proof. eexists. eexists. split; [vm_compute; reflexivity|]. split; vm_compute; reflexivity. Qed.
 
 Lemma roundtrip_flow_c L se rq r : contracts L -> flow_ok L se rq r ->
-  exists e i, flow_entry L rq (Some r) = Ok e /\ request_to_flow se L e = Ok i /\ same_exchange rq r i.
+  exists e i, flow_entry L rq (Some r) = Ok e /\ request_to_flow se L e = Ok i /\ same_exchange L rq r i.
 Proof. intros (C1 & C2 & C3). apply roundtrip_flow; assumption. Qed.
 
 Lemma refuted_http2_table : import_req_version V20 = V11 /\ import_resp_version V20 = V11 /\ ~ version_kept V20.
